@@ -302,7 +302,66 @@ func init() {
 			return err
 		}
 		observeSilence(tier, res)
+		silenceAfterErrorPath(res)
 		return nil
+	}
+}
+
+// silenceAfterErrorPath: at 2400 bps a reply with a corrupted (shortened) byte count is rejected by
+// the CRC; the tail of the frame keeps arriving while the client waits 256 character times and is
+// read by the flush. The next request must not start earlier than t3.5 after those last bytes.
+func silenceAfterErrorPath(res *Result) {
+	const rate = 2400
+	t1, t35 := modbus.VerifSerialTimings(rate)
+	conn := &TimedConn{}
+	mc, err := modbus.VerifNewClientOnConn(&modbus.ClientConfiguration{URL: "rtuovertcp://timed", Speed: rate, Timeout: 4 * time.Second, Logger: quietLog}, conn)
+	if err != nil {
+		res.Note("silence-after-error: " + err.Error())
+		return
+	}
+	stage := 0
+	var tailAt, thirdAt time.Time
+	var tail []byte
+	conn.OnWrite = func(b []byte, at time.Time) {
+		w := parseWire(true, b)
+		switch stage {
+		case 0: // a normal exchange
+			conn.Feed(rtuFrame(w.unit, w.fc, validReplyPayload(NewRng(1), w.fc, w.payload)))
+		case 1: // corrupted byte count: the transport sees a 7-byte frame with a bad CRC
+			good := rtuFrame(w.unit, w.fc, validReplyPayload(NewRng(2), w.fc, w.payload))
+			bad := append([]byte(nil), good...)
+			bad[2] = 2
+			conn.Feed(bad[:40])
+			tail = bad[40:]
+			// request (n bytes) + t3.5 + 256 character times after the write the flush starts; the tail lands 8 ms before
+			d := time.Duration(len(b))*t1 + t35 + 256*t1 - 8*time.Millisecond
+			go func() {
+				time.Sleep(time.Until(at.Add(d)))
+				conn.Feed(tail)
+				tailAt = time.Now()
+			}()
+		case 2:
+			thirdAt = at
+			conn.Feed(rtuFrame(w.unit, w.fc, validReplyPayload(NewRng(3), w.fc, w.payload)))
+		}
+		stage++
+	}
+	op := &Op{Name: "ReadRegisters", Addr: 1, Qty: 100}
+	out1 := op.Exec(mc)
+	out2 := op.Exec(mc)
+	left := conn.PendingLen()
+	out3 := op.Exec(mc)
+	gap := thirdAt.Sub(tailAt)
+	res.Eval("silence-after-error", true, fmt.Sprintf("2400 bps: %s / %s / %s; tail read by flush: %v; next request %v after the last received byte (t3.5 = %v)", shorten(out1, 12), out2, shorten(out3, 12), left == 0, gap, t35))
+	res.Note(fmt.Sprintf("error-path silence at 2400 bps: second exchange %s, %d bytes left after flush, next request %v after the last received byte (t3.5 = %v)", out2, left, gap, t35))
+	if !strings.HasPrefix(out1, "ok:") || strings.HasPrefix(out2, "ok:") {
+		res.Add(Finding{Kind: "property", Check: "silence-after-error", Line: "2400 bps scenario", Impl: out1 + " / " + out2, Expect: "ok / error"})
+		return
+	}
+	if left == 0 && !tailAt.IsZero() && gap+time.Millisecond < t35 {
+		res.Add(Finding{Kind: "property", Check: "silence-after-error", Line: "rtuovertcp 2400 bps: valid exchange; reply with byte count corrupted to 2 whose tail arrives during the 256-character wait; next request",
+			Impl: fmt.Sprintf("next request sent %v after the last received byte", gap), Expect: fmt.Sprintf(">= %v", t35),
+			Note: "a request started earlier than the inter-frame delay after the end of the previously received frame"})
 	}
 }
 
